@@ -2,6 +2,7 @@ package tcp
 
 import (
 	"net"
+	"strings"
 )
 
 // WriteProxyHeader extracts remote and local IP address and port
@@ -10,6 +11,15 @@ import (
 func WriteProxyHeader(out, in net.Conn) error {
 	clientAddr, clientPort, _ := net.SplitHostPort(in.RemoteAddr().String())
 	serverAddr, serverPort, _ := net.SplitHostPort(in.LocalAddr().String())
+
+	// the PROXY protocol knows no IPv6 zones: receivers reject
+	// an address like "fe80::1%eth0" and with it the connection.
+	if i := strings.IndexByte(clientAddr, '%'); i >= 0 {
+		clientAddr = clientAddr[:i]
+	}
+	if i := strings.IndexByte(serverAddr, '%'); i >= 0 {
+		serverAddr = serverAddr[:i]
+	}
 
 	var proto string
 	if net.ParseIP(clientAddr).To4() != nil {
